@@ -238,6 +238,9 @@ package interceptor
 //@   ensures @skip_only_where_handled: result0 == visit.Skip ==>
 //@        (vwp.Value.Kind() == reflect.Ptr && vwp.Value.IsNil()) || res1(getParentFieldType(vwp)) == visit.Skip
 //@   ensures @container_translated_once: typeis(vwp.Value.Interface(), "*common.SearchAttributes") && result0 == visit.Continue ==> !searchAttributeFieldNames["IndexedFields"]
+// the walk-wide flag only accumulates: a rename found in one container is not forgotten at the next (the flag decides
+// whether a history blob is re-encoded, so forgetting it silently drops the renames made inside that blob)
+//@   ensures @match_is_never_forgotten: old(matched) ==> matched
 
 // C14: the search-attribute visitor always walks the object it is given (there is no shortcut: every event type
 // can carry a search-attribute container).
